@@ -9,6 +9,7 @@ pub mod canon;
 pub mod fsim;
 pub mod lzfault;
 pub mod corrupt;
+pub mod texfault;
 
 pub struct ScenDef {
     pub name: &'static str,
@@ -28,7 +29,7 @@ pub fn no_shrink(_: &Value) -> Vec<Value> {
 
 pub fn no_init(_: &str) {}
 
-pub static ALL: &[&ScenDef] = &[&arch::DEF, &tarc::DEF, &canon::DEF, &fsim::DEF, &lzfault::DEF, &corrupt::DEF];
+pub static ALL: &[&ScenDef] = &[&arch::DEF, &tarc::DEF, &canon::DEF, &fsim::DEF, &lzfault::DEF, &corrupt::DEF, &texfault::DEF];
 
 pub fn for_prop(prop: &str) -> Option<&'static ScenDef> {
     ALL.iter().copied().find(|d| d.props.contains(&prop))
